@@ -45,7 +45,7 @@ func isFileMutationPrim(f *ssa.Function) bool {
 	} else if f.Object() != nil && f.Object().Pkg() != nil {
 		pkg = f.Object().Pkg().Path()
 	}
-	name := f.Name()
+	name := fnBase(f)
 	recv := ""
 	if f.Signature.Recv() != nil {
 		recv = typeNameOf(f.Signature.Recv().Type())
@@ -336,7 +336,7 @@ func ruleP05GuardedWrite(p *Prog, r *Report) {
 			if c.Common().IsInvoke() && c.Common().Method.Name() == "Parse" && typeNameOf(c.Common().Value.Type()) == "Parser" {
 				parse = c
 			}
-			if callee := staticCallee(c); callee != nil && callee.Name() == "RetrieveTargetFile" {
+			if callee := staticCallee(c); callee != nil && fnBase(callee) == "RetrieveTargetFile" {
 				retrieve = c
 			}
 			if c.Common().IsInvoke() && c.Common().Method.Name() == "RetrieveTargetFile" {
@@ -584,7 +584,7 @@ func ruleP05MakeResultGuard(p *Prog, r *Report) {
 		if c.Common().IsInvoke() && c.Common().Method.Name() == "Parse" {
 			parse = c
 			n++
-		} else if g := staticCallee(c); g != nil && g.Name() == "Parse" && g.Signature.Recv() != nil {
+		} else if g := staticCallee(c); g != nil && fnBase(g) == "Parse" && g.Signature.Recv() != nil {
 			parse = c
 			n++
 		}
@@ -867,7 +867,7 @@ func ruleP05Exit(p *Prog, r *Report) {
 	var kongRun ssa.CallInstruction
 	eachInstr(run, func(in ssa.Instruction) {
 		if c, ok := in.(ssa.CallInstruction); ok {
-			if g := staticCallee(c); g != nil && g.Name() == "Run" && g.Signature.Recv() != nil && strings.Contains(g.String(), "kong.Context") {
+			if g := staticCallee(c); g != nil && fnBase(g) == "Run" && g.Signature.Recv() != nil && strings.Contains(g.String(), "kong.Context") {
 				kongRun = c
 			}
 		}
@@ -896,7 +896,7 @@ func ruleP05Exit(p *Prog, r *Report) {
 		} else {
 			// provenance: Code.ToInt()
 			c, _ := callOf(code)
-			okk := c != nil && staticCallee(c) != nil && staticCallee(c).Name() == "ToInt"
+			okk := c != nil && staticCallee(c) != nil && fnBase(staticCallee(c)) == "ToInt"
 			r.check(okk, rule, key+":code", p.instrPos(ret), "status is an app.Code converted with ToInt", "status is not derived from an app.Code")
 		}
 		if after {
@@ -1029,7 +1029,7 @@ func ruleP05Exit(p *Prog, r *Report) {
 
 // exitsWithParam: g is os.Exit, or unconditionally calls os.Exit with its parameter #idx.
 func exitsWithParam(g *ssa.Function, idx int) bool {
-	if g.Pkg != nil && g.Pkg.Pkg.Path() == "os" && g.Name() == "Exit" {
+	if g.Pkg != nil && g.Pkg.Pkg.Path() == "os" && fnBase(g) == "Exit" {
 		return idx == 0
 	}
 	if len(g.Blocks) == 0 || idx >= len(g.Params) {
@@ -1042,8 +1042,8 @@ func exitsWithParam(g *ssa.Function, idx int) bool {
 			return
 		}
 		h := staticCallee(c)
-		if h != nil && h.Pkg != nil && h.Pkg.Pkg.Path() == "os" && h.Name() == "Exit" && len(c.Common().Args) == 1 &&
-			strip(c.Common().Args[0]) == ssa.Value(g.Params[idx]) && len(guardsOf(c.Block())) == 0 && c.Block().Dominates(g.Blocks[len(g.Blocks)-1]) || (h != nil && h.Pkg != nil && h.Pkg.Pkg.Path() == "os" && h.Name() == "Exit" && len(c.Common().Args) == 1 && strip(c.Common().Args[0]) == ssa.Value(g.Params[idx]) && len(guardsOf(c.Block())) == 0) {
+		if h != nil && h.Pkg != nil && h.Pkg.Pkg.Path() == "os" && fnBase(h) == "Exit" && len(c.Common().Args) == 1 &&
+			strip(c.Common().Args[0]) == ssa.Value(g.Params[idx]) && len(guardsOf(c.Block())) == 0 && c.Block().Dominates(g.Blocks[len(g.Blocks)-1]) || (h != nil && h.Pkg != nil && h.Pkg.Pkg.Path() == "os" && fnBase(h) == "Exit" && len(c.Common().Args) == 1 && strip(c.Common().Args[0]) == ssa.Value(g.Params[idx]) && len(guardsOf(c.Block())) == 0) {
 			ok = true
 		}
 	})
